@@ -16,7 +16,10 @@ Mirrors `Graph.__init__` of `/repo/src/hypergraph/graph/core.py`, in the code's 
 
 All of these raise `GraphConfigError`.  `buildGraphOld` is the behaviour before the repair
 `c7784ca`: `_expand_mutex_groups` called `nx.descendants` on a gate target that is not a node and the
-raw `networkx.NetworkXError` escaped the constructor.
+raw `networkx.NetworkXError` escaped the constructor.  Two further repaired defects keep their
+pre-repair check for a negative witness: `chkTypesAllEdges` (strict typing also visited the ordering
+edges; constructor `buildGraphAllEdges`) and `chkIdentifiersSkipGraph` (the output names of a
+nested-graph node were not validated; constructor `buildGraphSkipGraph`).
 
 ## What is data of the model and what is a precondition (node-level constructors, not `Graph`)
 The input is the list of *elaborated* nodes (`NodeD`, what `Graph` reads off each `HyperNode`).  The
@@ -333,16 +336,31 @@ def chkGraphName (b : BuildInput) : Option BuildErr :=
 def chkReservedNames (b : BuildInput) : Option BuildErr :=
   b.nodes.findSome? fun nd => if nd.name == "END" then some (.reservedName nd.name) else none
 
-/-- `_validate_valid_identifiers` (graph nodes are skipped altogether, outputs included) -/
+/-- the output loop of `_validate_valid_identifiers` for one node -/
+def chkOutputNames (nd : NodeD) : Option BuildErr :=
+  nd.outputs.findSome? fun o =>
+    if !isIdentifier o then some (.invalidOutputName nd.name o)
+    else if isKeyword o then some (.keywordOutputName nd.name o)
+    else none
+
+/-- `_validate_valid_identifiers`: the NAME of a graph node is exempt (it follows the laxer graph-name
+rule), its OUTPUT names are validated like any other output -/
 def chkIdentifiers (b : BuildInput) : Option BuildErr :=
+  b.nodes.findSome? fun nd =>
+    if nd.kind == .graph then chkOutputNames nd
+    else if !isIdentifier nd.name then some (.invalidNodeName nd.name)
+    else if isKeyword nd.name then some (.keywordNodeName nd.name)
+    else chkOutputNames nd
+
+/-- `_validate_valid_identifiers` before the repair "output names of a nested graph are validated":
+the loop `continue`d on a graph node, skipping its outputs together with its name (kept for the
+negative witness `HG.C19s.graph_node_output_name_witness`; not part of `checks`) -/
+def chkIdentifiersSkipGraph (b : BuildInput) : Option BuildErr :=
   b.nodes.findSome? fun nd =>
     if nd.kind == .graph then none
     else if !isIdentifier nd.name then some (.invalidNodeName nd.name)
     else if isKeyword nd.name then some (.keywordNodeName nd.name)
-    else nd.outputs.findSome? fun o =>
-      if !isIdentifier o then some (.invalidOutputName nd.name o)
-      else if isKeyword o then some (.keywordOutputName nd.name o)
-      else none
+    else chkOutputNames nd
 
 /-- `all_outputs[name]` of `_validate_no_namespace_collision`: the LAST node producing `name` -/
 def lastSource (nodes : List NodeD) (o : Name) : Option Name := (sourcesOf nodes o).getLast?
@@ -419,9 +437,19 @@ def chkTypesEdge (b : BuildInput) (e : Edge) : Option BuildErr :=
       | none => some (.missingInputAnnotation e.dst v)
       | some ti => if compat to ti then none else some (.typeMismatch e.src e.dst v)
 
-/-- `_validate_types` (every edge with `value_names`: data edges AND the ordering edges that
-`_add_ordering_edges` labels with the awaited name) -/
+/-- `_validate_types`: every edge with `value_names` EXCEPT the ordering edges (`edge_type ==
+"ordering"`, which `_add_ordering_edges` labels with the awaited name): no value reaches a parameter
+through an ordering edge, there is nothing to type -/
 def chkTypes (b : BuildInput) : Option BuildErr :=
+  if b.strict then
+    (nxOrder b.nodes (graphEdges b)).findSome? fun e =>
+      if e.kind == .ordering then none else chkTypesEdge b e
+  else none
+
+/-- `_validate_types` before the repair "strict typing skips ordering edges": every edge with
+`value_names`, data edges AND ordering edges, so every strict graph with an emit / wait_for pair was
+rejected (kept for the negative witness `HG.C19s.strict_wait_for_witness`; not part of `checks`) -/
+def chkTypesAllEdges (b : BuildInput) : Option BuildErr :=
   if b.strict then (nxOrder b.nodes (graphEdges b)).findSome? (chkTypesEdge b) else none
 
 /-- pre-repair `_expand_mutex_groups`: the target list was not restricted to nodes of `G`, so with
@@ -446,6 +474,20 @@ def checksOld : List (BuildInput → Option BuildErr) :=
    chkGateTargets, chkGateSelfLoop, chkMultiTarget, chkInterruptInMap, chkCacheOnGraphNode,
    chkWaitFor, chkTypes]
 
+/-- the same with the pre-repair `_validate_types` (ordering edges typed as well) -/
+def checksAllEdges : List (BuildInput → Option BuildErr) :=
+  [chkDuplicateNodes, chkExplicitEdges, chkOutputConflicts,
+   chkGraphName, chkReservedNames, chkIdentifiers, chkNamespaceCollision, chkConsistentDefaults,
+   chkGateTargets, chkGateSelfLoop, chkMultiTarget, chkInterruptInMap, chkCacheOnGraphNode,
+   chkWaitFor, chkTypesAllEdges]
+
+/-- the same with the pre-repair `_validate_valid_identifiers` (graph nodes skipped, outputs included) -/
+def checksSkipGraph : List (BuildInput → Option BuildErr) :=
+  [chkDuplicateNodes, chkExplicitEdges, chkOutputConflicts,
+   chkGraphName, chkReservedNames, chkIdentifiersSkipGraph, chkNamespaceCollision, chkConsistentDefaults,
+   chkGateTargets, chkGateSelfLoop, chkMultiTarget, chkInterruptInMap, chkCacheOnGraphNode,
+   chkWaitFor, chkTypes]
+
 def runChecks (cs : List (BuildInput → Option BuildErr)) (b : BuildInput) : Except BuildErr Unit :=
   match cs.findSome? fun c => c b with
   | some e => .error e
@@ -457,6 +499,12 @@ def buildGraph (b : BuildInput) : Except BuildErr Unit := runChecks checks b
 /-- the constructor before repair `c7784ca` -/
 def buildGraphOld (b : BuildInput) : Except BuildErr Unit := runChecks checksOld b
 
+/-- the constructor before the repair "strict typing skips ordering edges" -/
+def buildGraphAllEdges (b : BuildInput) : Except BuildErr Unit := runChecks checksAllEdges b
+
+/-- the constructor before the repair "output names of a nested graph are validated" -/
+def buildGraphSkipGraph (b : BuildInput) : Except BuildErr Unit := runChecks checksSkipGraph b
+
 /-- `"ok"` or the flaw class of the first error -/
 def classify (b : BuildInput) : String :=
   match buildGraph b with
@@ -465,6 +513,16 @@ def classify (b : BuildInput) : String :=
 
 def classifyOld (b : BuildInput) : String :=
   match buildGraphOld b with
+  | .ok _ => "ok"
+  | .error e => e.className
+
+def classifyAllEdges (b : BuildInput) : String :=
+  match buildGraphAllEdges b with
+  | .ok _ => "ok"
+  | .error e => e.className
+
+def classifySkipGraph (b : BuildInput) : String :=
+  match buildGraphSkipGraph b with
   | .ok _ => "ok"
   | .error e => e.className
 
